@@ -461,6 +461,25 @@ fn run_comp<P: mahf::Problem + 'static>(comp: &(dyn Component<P> + 'static), pro
 /// Children of a pairwise crossover must hold, at every position, the two parental genes between them.
 fn conserve<T: PartialEq + std::fmt::Debug + Clone>(parents: &[Vec<T>], children: &[Vec<T>], both: bool, name: &str, at: &str) -> Result<(), Failure> {
     // walk the parents pairwise; children are emitted in order (both: 2 per pair or the 2 parents; single: 1 per crossed pair or the 2 parents)
+    if !both {
+        // with equal parents the two readings of a pair's output (one child / both parents passed through) can look
+        // alike, so the children are accepted if SOME assignment to the pairs explains all of them
+        fn parse<T: PartialEq>(pairs: &[&[Vec<T>]], children: &[Vec<T>]) -> bool {
+            let Some((pair, rest)) = pairs.split_first() else { return children.is_empty() };
+            if pair.len() == 1 {
+                return children.first() == Some(&pair[0]) && parse(rest, &children[1..]);
+            }
+            let (p1, p2) = (&pair[0], &pair[1]);
+            let gene_ok = |c: &Vec<T>| c.len() == p1.len() && (0..c.len()).all(|i| c[i] == p1[i] || c[i] == p2[i]);
+            if children.len() >= 2 && &children[0] == p1 && &children[1] == p2 && parse(rest, &children[2..]) {
+                return true;
+            }
+            !children.is_empty() && gene_ok(&children[0]) && parse(rest, &children[1..])
+        }
+        let pairs: Vec<&[Vec<T>]> = parents.chunks(2).collect();
+        ensure_that!(parse(&pairs, children), format!("C13 {name} child gene not from a parent"), "{at}: the offspring {children:?} cannot be explained pair by pair (one child built from the two parents' genes, or both parents passed through; an unpaired last parent passed through)");
+        return Ok(());
+    }
     let mut ci = 0;
     for pair in parents.chunks(2) {
         if pair.len() == 1 {
@@ -470,30 +489,16 @@ fn conserve<T: PartialEq + std::fmt::Debug + Clone>(parents: &[Vec<T>], children
         }
         let (p1, p2) = (&pair[0], &pair[1]);
         let gene_ok = |c: &Vec<T>| c.len() == p1.len() && (0..c.len()).all(|i| c[i] == p1[i] || c[i] == p2[i]);
-        if both {
-            let (c1, c2) = match (children.get(ci), children.get(ci + 1)) {
-                (Some(a), Some(b)) => (a, b),
-                _ => fail!(format!("C13 {name} offspring count"), "{at}: missing children"),
-            };
-            ensure_that!(gene_ok(c1) && gene_ok(c2), format!("C13 {name} child gene not from a parent"), "{at}: parents {p1:?} {p2:?} children {c1:?} {c2:?}");
-            for i in 0..p1.len() {
-                let ok = (c1[i] == p1[i] && c2[i] == p2[i]) || (c1[i] == p2[i] && c2[i] == p1[i]);
-                ensure_that!(ok, format!("C13 {name} does not conserve both genes of a position"), "{at}: position {i}: parents {:?}/{:?}, children {:?}/{:?}", p1[i], p2[i], c1[i], c2[i]);
-            }
-            ci += 2;
-        } else {
-            // either one child, or both parents unchanged
-            if children.get(ci) == Some(p1) && children.get(ci + 1) == Some(p2) && children.len() - ci >= 2 && !gene_single_ambiguous(p1, p2) {
-                ci += 2;
-            } else {
-                let c = match children.get(ci) {
-                    Some(c) => c,
-                    None => fail!(format!("C13 {name} offspring count"), "{at}: missing child"),
-                };
-                ensure_that!(gene_ok(c), format!("C13 {name} child gene not from a parent"), "{at}: parents {p1:?} {p2:?} child {c:?}");
-                ci += 1;
-            }
+        let (c1, c2) = match (children.get(ci), children.get(ci + 1)) {
+            (Some(a), Some(b)) => (a, b),
+            _ => fail!(format!("C13 {name} offspring count"), "{at}: missing children"),
+        };
+        ensure_that!(gene_ok(c1) && gene_ok(c2), format!("C13 {name} child gene not from a parent"), "{at}: parents {p1:?} {p2:?} children {c1:?} {c2:?}");
+        for i in 0..p1.len() {
+            let ok = (c1[i] == p1[i] && c2[i] == p2[i]) || (c1[i] == p2[i] && c2[i] == p1[i]);
+            ensure_that!(ok, format!("C13 {name} does not conserve both genes of a position"), "{at}: position {i}: parents {:?}/{:?}, children {:?}/{:?}", p1[i], p2[i], c1[i], c2[i]);
         }
+        ci += 2;
     }
     ensure_that!(ci == children.len(), format!("C13 {name} offspring count"), "{at}: {} children, accounted for {ci}", children.len());
     Ok(())
@@ -991,7 +996,11 @@ fn rate() -> impl Strategy<Value = Fb> {
 }
 
 fn real_pop() -> impl Strategy<Value = Vec<Vec<Fb>>> {
-    (1usize..9).prop_flat_map(|dim| proptest::collection::vec(proptest::collection::vec((-10.0f64..10.0).prop_map(Fb::of), dim), 0..10))
+    prop_oneof![
+        4 => (1usize..9).prop_flat_map(|dim| proptest::collection::vec(proptest::collection::vec((-10.0f64..10.0).prop_map(Fb::of), dim), 0..10)),
+        // a mating pool drawn with replacement from a few distinct solutions: equal neighbours are the rule
+        1 => (1usize..9).prop_flat_map(|dim| (proptest::collection::vec(proptest::collection::vec((-10.0f64..10.0).prop_map(Fb::of), dim), 1..4), proptest::collection::vec(any::<u8>(), 0..10)).prop_map(|(pool, picks)| picks.iter().map(|k| pool[*k as usize % pool.len()].clone()).collect())),
+    ]
 }
 
 fn comp_strategy() -> impl Strategy<Value = CompCase> {
